@@ -268,4 +268,22 @@ def run(rep: Report, tier: str) -> None:  # noqa: C901
         bad = {c for c in called if c.startswith("vp_")}
         if bad:
             rep.add(transp.fnd("R28.6", f"unchanged/{h}", f, f.node.lineno, f"{h} applies {sorted(bad)}: clauses and set operators must leave viral attributes unchanged"))
+    # ---- R28.7 the values a propagation rule reduces are a MULTISET: gathered with UNION ALL ----
+    rep.rule("R28.7", "row sets gathered for a viral-propagation reduction are concatenated with UNION ALL (a plain UNION removes equal child values before sum / avg / enumerated rules see them)")
+    from sa import sqlx as _sqlx
+    n7 = 0
+    for sk in _sqlx.iter_skeletons(P):
+        if sk.func is None or "vp_" not in src(sk.func.node):
+            continue
+        toks = _sqlx.tokenize(sk.text)
+        for i_, t_ in enumerate(toks):
+            if t_.up == "UNION":
+                n7 += 1
+                is_all = i_ + 1 < len(toks) and toks[i_ + 1].up == "ALL"
+                rep.instance("R28.7", f"union/{sk.func.name}:{sk.line}", nontrivial=True, sample={"all": is_all})
+                if not is_all:
+                    rep.add(Finding("R28.7", f"R28.7/plain-union/{sk.func.name}", sk.module.rel, sk.line, sk.where,
+                                    f"{sk.func.name} gathers the values a viral propagation rule reduces with a plain UNION: two children (or operands) carrying the same values for the same "
+                                    f"identifiers collapse into one row, so `aggregate sum` / `avg` and non-idempotent enumerated rules see too few values"))
+    rep.floor("R28.7 unions in viral-propagation SQL", n7, 2)
     rep.assumptions = ["LEAST/GREATEST/+// on non-null numbers behave as min/max/sum/quotient (exact rationals used)", "grammar tokens MIN MAX SUM AVG are the aggregate functions of vp clauses"]
